@@ -178,6 +178,7 @@ def run_concrete(job, inputs):
         out['status'] = 'assume-failed'
     except RaiseEx as e:
         out['exception'] = e.exc_name()
+        out['exception_msg'] = str(e.v)[:300]
     except Unsupported as e:
         out['status'] = 'unsupported: ' + str(e)
     finally:
